@@ -12,6 +12,12 @@
 //	                                               upd  ∈ ok | err | panic:err | panic:str | panic:deref            (what the updater does if called)
 //	                                               `escaped` = a panic came out of Handle; applied = the value the updater last applied,
 //	                                               upd = how often the updater has been called
+//	ds.mode <module> val|bad                    (before any delivery on the module) the module's handler is built with
+//	                                               datasource.NewDefaultPropertyHandler(conv', the module's real updater) where conv' runs the real parser and
+//	                                               val: hands the updater a VALUE slice ([]flow.Rule …, nil elements become zero rules; cb's updater rejects that type)
+//	                                               bad: hands it a property of a wrong type (a string): the updater's type-assertion error path
+//	base.remove <module> | base.add <module>    RemovePropertyHandler / AddPropertyHandler on the module's Base (add twice, add/remove nil: no-ops)
+//	specstr <kind> <hex>                        => hex of (&SpecificValue{ValKind: kind, ValStr: …}).String()
 //	rules <module>                              => <GetRules, canonical>
 //	tags <module>                               => GoField:kind:jsonname[,omitempty];…   (reflection on the wire type)
 //	file.new <module> <hex | none>              => ok|err <rules>      (real temp file + fsnotify; thorough tier)
@@ -223,6 +229,81 @@ func newHandler(mod string) datasource.PropertyHandler {
 		return datasource.NewHotSpotParamRulesHandler(datasource.HotSpotParamRuleJsonArrayParser)
 	}
 	panic("bad module " + mod)
+}
+
+func updaterOf(mod string) datasource.PropertyUpdater {
+	switch mod {
+	case "flow":
+		return datasource.FlowRulesUpdater
+	case "system":
+		return datasource.SystemRulesUpdater
+	case "cb":
+		return datasource.CircuitBreakerRulesUpdater
+	case "isolation":
+		return datasource.IsolationRulesUpdater
+	case "hotspot":
+		return datasource.HotSpotParamRulesUpdater
+	}
+	panic("bad module " + mod)
+}
+
+func parserOf(mod string) datasource.PropertyConverter {
+	switch mod {
+	case "flow":
+		return datasource.FlowRuleJsonArrayParser
+	case "system":
+		return datasource.SystemRuleJsonArrayParser
+	case "cb":
+		return datasource.CircuitBreakerRuleJsonArrayParser
+	case "isolation":
+		return datasource.IsolationRuleJsonArrayParser
+	case "hotspot":
+		return datasource.HotSpotParamRuleJsonArrayParser
+	}
+	panic("bad module " + mod)
+}
+
+// derefSlice turns a []*T into a []T (nil elements become zero values, a nil slice a nil slice).
+func derefSlice(v interface{}) interface{} {
+	rv := reflect.ValueOf(v)
+	et := rv.Type().Elem().Elem()
+	if rv.IsNil() {
+		return reflect.Zero(reflect.SliceOf(et)).Interface()
+	}
+	out := reflect.MakeSlice(reflect.SliceOf(et), 0, rv.Len())
+	for i := 0; i < rv.Len(); i++ {
+		if e := rv.Index(i); e.IsNil() {
+			out = reflect.Append(out, reflect.Zero(et))
+		} else {
+			out = reflect.Append(out, e.Elem())
+		}
+	}
+	return out.Interface()
+}
+
+func modeHandler(mod, mode string) datasource.PropertyHandler {
+	parse := parserOf(mod)
+	conv := func(src []byte) (interface{}, error) {
+		v, err := parse(src)
+		if err != nil || v == nil {
+			return v, err
+		}
+		if mode == "val" {
+			return derefSlice(v), nil
+		}
+		return "a property of the wrong type", nil
+	}
+	return datasource.NewDefaultPropertyHandler(conv, updaterOf(mod))
+}
+
+func (it *Interp) base(mod string) *datasource.Base {
+	b, ok := it.bases[mod]
+	if !ok {
+		b = &datasource.Base{}
+		b.AddPropertyHandler(it.handler(mod))
+		it.bases[mod] = b
+	}
+	return b
 }
 
 func (it *Interp) handler(mod string) datasource.PropertyHandler {
@@ -476,13 +557,29 @@ func (it *Interp) Step(t []string, op string) string {
 			return "err " + rules(t[1])
 		}
 		return "ok " + rules(t[1])
-	case "ds.deliver":
-		b, ok := it.bases[t[1]]
-		if !ok {
-			b = &datasource.Base{}
-			b.AddPropertyHandler(it.handler(t[1]))
-			it.bases[t[1]] = b
+	case "ds.mode":
+		if _, ok := it.handlers[t[1]]; ok {
+			panic("ds.mode after a delivery")
 		}
+		it.handlers[t[1]] = modeHandler(t[1], t[2])
+		return ""
+	case "base.remove":
+		b := it.base(t[1])
+		b.RemovePropertyHandler(nil)
+		b.RemovePropertyHandler(it.handler(t[1]))
+		b.RemovePropertyHandler(it.handler(t[1])) // not registered any more: no-op
+		return ""
+	case "base.add":
+		b := it.base(t[1])
+		b.AddPropertyHandler(nil)
+		b.AddPropertyHandler(it.handler(t[1]))
+		b.AddPropertyHandler(it.handler(t[1])) // already registered: no-op
+		return ""
+	case "specstr":
+		sv := &datasource.SpecificValue{ValKind: datasource.ParamKind(vh.I(t[1])), ValStr: string(payload(t[2]))}
+		return hex.EncodeToString([]byte(sv.String()))
+	case "ds.deliver":
+		b := it.base(t[1])
 		it.buf = append(it.buf[:0], payload(t[2])...)
 		if err := b.Handle(it.buf); err != nil {
 			return "err " + rules(t[1])
